@@ -1,6 +1,7 @@
 from collections import defaultdict
 from collections.abc import Callable
 from dataclasses import dataclass, field
+from math import lcm
 from typing import cast
 
 from minimalloc import Buffer, Problem  # pyright: ignore[reportMissingTypeStubs]
@@ -302,10 +303,14 @@ class MiniMallocate(RewritePattern):
         )
         for memory in memory_spaces:
             buffers_subset = [buffer for buffer in buffers if buffer_ops[buffer.id].memory_space == memory.attribute]
-            problem = Problem(buffers_subset, memory.capacity)
+            # the offsets of the solution are aligned, not the addresses: start at an address that is aligned
+            # for all buffers, in case the memory does not start at a multiple of the alignments
+            alignment = lcm(*(max(buffer.alignment, 1) for buffer in buffers_subset))
+            start = memory.start + (-memory.start) % alignment
+            problem = Problem(buffers_subset, memory.capacity - (start - memory.start))
             solution = problem.solve()
             for buffer, offset in zip(buffers_subset, solution):
-                pointer_result[buffer.id] = offset + memory.start
+                pointer_result[buffer.id] = offset + start
 
         # Now, generate constant ops for the pointers
         for buffer in buffers:
